@@ -263,8 +263,7 @@ fn oracle_step(w: &World, ctx: &mut Ctx, resps: &[(u64, String)], _act: &str) {
             let from_part = k.parse::<u64>().ok().map(|n| parts.iter().any(|p| p.st == PSt::Complete(n))).unwrap_or(false);
             if !ok_hash || !from_part { ctx.violation("C01", "resolve-bad-key", &format!("htlc {} resolved with {} (hash ok: {}, completed part: {}) REPLAY[{}]", id, k, ok_hash, from_part, replay(w))); }
         } else if r.starts_with("fail:") && !quiet && !w.lost_write {
-            let code = r.trim_start_matches("fail:").chars().take(4).collect::<String>();
-            let sig = if w.fault_read { format!("fail-while-live:read-fault:{}:{}", w.fault_kind, code) } else { "fail-while-live".to_string() };
+            let sig = if w.fault_read { format!("fail-while-live:read-fault:{}", w.fault_kind) } else { "fail-while-live".to_string() };
             ctx.violation("C02", &sig, &format!("htlc {} failed with {} while parts are {:?} REPLAY[{}]", id, r, parts, replay(w)));
         }
     }
